@@ -410,7 +410,7 @@ func (pr *Program) FindFunc(pkgPath, name string) *ssa.Function {
 
 func (pr *Program) Explore(entry *ssa.Function, opts Options) *Result {
 	if opts.Workers <= 0 {
-		opts.Workers = 8
+		opts.Workers = 14
 	}
 	if opts.MaxPaths <= 0 {
 		opts.MaxPaths = 20000
@@ -618,7 +618,7 @@ func (ex *Explorer) runPath(in *interpreter, solver *Solver, script []int) {
 		res.Samples = append(res.Samples, fmt.Sprintf("path %v status=%s pc=%d events=%v", p.decisions, status, len(p.pc), p.renderEvents()))
 	}
 	if ex.opts.Verbose {
-		fmt.Fprintf(os.Stderr, "path %v: %s %s (pc %d, steps %d)\n", p.decisions, status, firstLine(detail), len(p.pc), p.steps)
+		fmt.Fprintf(os.Stderr, "path %v: %s %s (pc %d, steps %d) events=%v\n", p.decisions, status, firstLine(detail), len(p.pc), p.steps, p.renderEvents())
 	}
 }
 
